@@ -76,6 +76,8 @@ def interp_case(draw):
     uniform = draw(st.booleans()) or draw(st.booleans())
     if uniform:
         step = draw(st.sampled_from([1000, 2000, 5000, 10000, 20000, 50000, 100000, 250000, 12500, 31250]))
+        if n >= 3 and draw(st.integers(0, 3)) == 0:  # angle-like table: the grid crosses x = 0 at a knot
+            x0 = -step * draw(st.integers(1, n - 2))
         xs = [x0 + i * step for i in range(n)]
     else:
         base = draw(st.sampled_from([1000, 4000, 10000, 50000]))
@@ -126,7 +128,9 @@ def interp_case(draw):
         gn = (xs[-1] - xs[0]) // gs
     gn = max(1, int(gn))
     return dict(type=typ, boundaries=bnd, x=xs, y=ys, ykind=ykind, flags=flags, grid=[int(g0), int(gs), int(gn)], gridkind=gk,
-                comment=draw(st.booleans()))
+                comment=draw(st.booleans()),
+                # input file layout: "x y flag" | "x y yerr flag" (as written by csg_stat / csg_fmatch) | with a leading row count
+                layout=draw(st.sampled_from(["xyf", "xyf", "xyef", "n+xyf", "n+xyef"])))
 
 
 @st.composite
@@ -156,10 +160,15 @@ def fit_case(draw):
 
 
 # ----------------------------------------------------------------------------------------------- helpers
-def write_table(path, xs, ys, flags):
+def write_table(path, xs, ys, flags, layout="xyf"):
     with open(path, "w") as f:
-        for k, y, fl in zip(xs, ys, flags):
-            f.write(f"{dec(k)} {y:.12g} {fl}\n")
+        if layout.startswith("n+"):
+            f.write(f"{len(xs)}\n")
+        for i, (k, y, fl) in enumerate(zip(xs, ys, flags)):
+            if layout.endswith("xyef"):
+                f.write(f"{dec(k)} {y:.12g} {0.001 * (i % 7 + 1):.6g} {fl}\n")
+            else:
+                f.write(f"{dec(k)} {y:.12g} {fl}\n")
 
 
 def read_table(path):
@@ -311,7 +320,10 @@ def run_interp(case, ctx, d):
         r.cls("excluded-known:" + PKEY_CUBIC)
         r.discard = True
         return r
-    write_table(os.path.join(d, "in.tab"), xs, ys, flags)
+    write_table(os.path.join(d, "in.tab"), xs, ys, flags, case.get("layout", "xyf"))
+    r.cls("input-layout:" + case.get("layout", "xyf"))
+    if xs[0] < 0 < xs[-1] and 0 in xs:
+        r.cls("grid-crosses-zero-at-a-knot")
     args = ["--in", "in.tab", "--out", "out.tab", "--grid", f"{dec(gk[0])}:{dec(gs)}:{dec(gk[-1])}", "--type", typ, "--derivative", "der.tab"]
     if bnd:
         args += ["--boundaries", bnd]
